@@ -98,9 +98,9 @@ theorem injected_is_youngest (s : St σ) (ent' : σ) (sp : Spec) (inv : Inv s) :
       exact inv.fresh_log o ho
 
 /-- the state after `reset()` satisfies the engine invariant -/
-theorem reset_is_init (base : Nat) (ent : σ) (pre : List Spec) :
-    resetSt base ent pre = renSt (· + base) id (base + pre.length) (init ent 0 pre) := by
-  have h := mkEvents_ren (· + base) 0 base 0 pre (by intro j; simp; omega)
+theorem reset_is_init (base start : Nat) (ent : σ) (pre : List Spec) :
+    resetSt base start ent pre = renSt (· + base) id (base + pre.length) (init ent start pre) := by
+  have h := mkEvents_ren (· + base) 0 base start pre (by intro j; simp; omega)
   unfold resetSt renSt init
   simp only [h, countPrimary_ren, List.map_nil, id]
 
@@ -190,8 +190,8 @@ theorem renSt_shift_inv (k N' : Nat) (s : St σ) (inv : Inv s) (hN : s.nextId + 
       subst h2
       exact ⟨pe, (inv.log_popped pe).mpr hp0, h1⟩
 
-theorem reset_inv (base : Nat) (ent : σ) (pre : List Spec) : Inv (resetSt base ent pre) := by
+theorem reset_inv (base start : Nat) (ent : σ) (pre : List Spec) : Inv (resetSt base start ent pre) := by
   rw [reset_is_init]
-  exact renSt_shift_inv base _ _ (init_inv ent 0 pre) (by simp [init]; omega)
+  exact renSt_shift_inv base _ _ (init_inv ent start pre) (by simp [init]; omega)
 
 end HappyModel.C04
